@@ -387,6 +387,22 @@ def big_cases(ctx, tmpdir):
         ctx.case_done(None, ('big', fmt))
         if fails:
             ctx.oracle_failure(info, fails[:3], {})
+    # pruned down to a few structures that keep their (large, no longer consecutive) identifiers
+    for fmt in ('hdf5', 'fits'):
+        dp = Dendrogram.compute(arr)
+        dp.prune(min_npix=rng.choice([40, 120, 400]))
+        info = {'stream': 'pruned to few structures with large identifiers', 'n_pixels': n, 'structures': len(dp),
+                'largest_id': max([int(s.idx) for s in dp] or [0]), 'format': fmt}
+        try:
+            d2 = roundtrip(dp, fmt, 'auto', False, tmpdir)
+            fails, _ = compare_loaded(case, dp, d2, fmt, False)
+        except Exception as e:
+            ctx.oracle_failure(info, ['save/load raised %r' % (e,)], {'exc': type(e).__name__})
+            continue
+        ctx.notes['big pruned (%s)' % fmt] = {'structures': len(dp), 'largest_id': info['largest_id']}
+        ctx.case_done(None, ('big-pruned', fmt))
+        if fails:
+            ctx.oracle_failure(info, fails[:3], {})
     # deep chain: a staircase with a small bump on every step nests one branch per step
     depth = 1300
     vals = []
